@@ -188,6 +188,10 @@ Theorem C04_optional_value_kept : forall (T : Type) (NT : Num T) (none : T) (val
   eqb (nth i vals zero) none = false -> nth i (opt_year none vals) zero = nth i vals zero.
 Proof. exact @optional_keep_lemma. Qed.
 
+Theorem C04_sunshine_value_kept : forall (T : Type) (NT : Num T) (none : T) (vals : list T) i,
+  eqb (nth i vals none) none = false -> nth i (sund_year none vals) none = nth i vals none.
+Proof. intros. apply sund_keep_lemma. assumption. Qed.
+
 Theorem C04_optional_gapfill : forall (T : Type) (NT : Num T) (none : T) (vals : list T) i,
   (S (S i) < List.length vals)%nat -> (List.length vals <= 366)%nat ->
   eqb (nth (S i) vals zero) none = true ->
@@ -455,6 +459,7 @@ Print Assumptions C04_gapfill_31dec.
 Print Assumptions C04_gapfill_1jan.
 Print Assumptions C04_optional_value_kept.
 Print Assumptions C04_optional_gapfill.
+Print Assumptions C04_sunshine_value_kept.
 Print Assumptions C04_optional_edge_zero.
 Print Assumptions C04_loader_places_partial.
 Print Assumptions C04_alignment_partial_first_year.
